@@ -835,7 +835,7 @@ func init() {
 	core.Register(&core.Prop{
 		ID:        "C17",
 		Technique: "marker-codec monitor: several Plenc instances with random options and random (type, tag) registrations of harness marker codecs used in interleaved order (race lane: concurrently); every output compared byte for byte with the model parameterised by that instance only; package-level functions compared with a default configuration",
-		Rule: "every 11th trial: 1500 rounds of RegisterCodecWithTag(T, fresh tag) against the first CodecForTypeWithTag of that key from another goroutine with a swept delay, the key must give the registered codec afterwards. Every 13th trial: codecs registered under a tag name for two types that refer to themselves under that tag name (directly, through a nested struct) and a non-recursive holder, first uses in every order, exact bytes, an instance without the registrations beside it. Otherwise one trial = 2-6 instances, each with random ProtoCompatibleArrays/Time and a random subset of registrations {(Marked,\"\"),(Marked,m1),(Marked,m2),(MarkStr,\"\"),(MarkStr,m1)} of marker codecs that write a constant identifying the registration; the marked struct type and the named string type are placed as value, tagged value, pointer target, slice element, map key, map value, interned field, and the same slice/map/int types again under the built-in proto/flat options, in shuffled declaration order; failing builds interleaved on random instances; 6 x instances marshal/unmarshal jobs in random instance order; " +
+		Rule: "every 7th trial: definitions around a part without a codec (array, complex, func; a struct under an unregistered tag name) are turned away, then a codec is registered for the part: every definition, those that failed included, must use it from then on, and an instance without the registration still turns them away. every 11th trial: 1500 rounds of RegisterCodecWithTag(T, fresh tag) against the first CodecForTypeWithTag of that key from another goroutine with a swept delay, the key must give the registered codec afterwards. Every 13th trial: codecs registered under a tag name for two types that refer to themselves under that tag name (directly, through a nested struct) and a non-recursive holder, first uses in every order, exact bytes, an instance without the registrations beside it. Otherwise one trial = 2-6 instances, each with random ProtoCompatibleArrays/Time and a random subset of registrations {(Marked,\"\"),(Marked,m1),(Marked,m2),(MarkStr,\"\"),(MarkStr,m1)} of marker codecs that write a constant identifying the registration; the marked struct type and the named string type are placed as value, tagged value, pointer target, slice element, map key, map value, interned field, and the same slice/map/int types again under the built-in proto/flat options, in shuffled declaration order; failing builds interleaved on random instances; 6 x instances marshal/unmarshal jobs in random instance order; " +
 			"then the package-level Marshal/Unmarshal are compared with a default configuration. Lane firstuse: 16 fresh processes whose first package-level call is a registration for a key the defaults also fill. At the end of each shard a package-level registration is made and must be visible to the package-level functions only. distinct = distinct trials (sets of instance configurations)",
 		Assume: []string{"model.Encode parameterised by one instance's options and registrations"},
 		Plan: func(tier string) []core.Lane {
